@@ -1,17 +1,31 @@
 /-
 C02 — Config versions are isolated snapshots; inputs are never modified.
 
-Heap-level statement about the copy structure of `compose` (regenerated facts F8): the defaults
-and every source value are deep-copied before the overlay touches them.  The deep copier is proved
-(C03); the overlay step's locality is the stated hypothesis `OverlayLocal` (inhabited by
-`simpleOverlay`), sampled on the real overlay.go by the harness's alias oracle.
+Heap-level statement about `compose` (regenerated facts F8: the defaults and every source value are
+deep-copied, each with its own copier, before the overlay touches them).
+
+Two layers of theorems:
+ * the `_real` theorems are about `composeR` (Model/HeapOverlay.lean): the proved deep copier (C03)
+   followed, per source, by the heap-level executable model of overlay.go (`overlayStructH` /
+   `overlayFieldH`: every branch of overlayField, in-place writes through base pointers, reference
+   assignment of pointers / maps / slices, allocation of fresh pointees, the error and panic exits) —
+   no hypothesis about the overlay step is left.  The model is tied to the real overlay.go and compose
+   by the harness streams C and D (model == implementation on result graph with sharing, on the set and
+   contents of modified pre-existing cells, on freshness).
+ * the original abstract theorems take the overlay step as a parameter `ov` with the hypothesis
+   `OverlayLocal ov`; `C02_overlay_local_real` shows that the real overlay satisfies these laws on
+   well-formed heaps (`OverlayLocalWF`), and `C02_fresh_and_frozen_abstract_wf` that the weaker laws
+   suffice.
 -/
 import DialsModel.Model.HeapSpec
 import DialsModel.Lemmas.HeapCopy
 import DialsModel.Lemmas.HeapCompose
+import DialsModel.Model.HeapOverlay
+import DialsModel.Lemmas.HeapOverlay
 
 namespace Dials.C02
 open Dials Dials.Heap
+open Dials.Overlay (Ty Fields FieldKind)
 
 /-- regenerated facts F8: compose and Config copy before they overlay -/
 theorem C02_facts : Facts.composeCopiesDefaults = true ∧ Facts.composeCopiesSources = true ∧
@@ -75,5 +89,119 @@ theorem C02_old_version_untouched (ov : Heap → HV → HV → Heap × HV) (hov 
     (hc2 : composeH ov f h2 d vs = some (h3, r2)) :
     ∀ a, a < h2.length → h3[a]? = h2[a]? :=
   (C02_fresh_and_frozen ov hov f h2 d vs hh2 hd2 hvs2 h3 r2 hc2).2.2
+
+/-! ## the real overlay: no hypothesis left -/
+
+/-- The heap-level model of overlay.go is local, for every pair of types, every heap, every pair of
+locations and EVERY exit (ok, error, panic, stuck): for any set `P` of addresses that is closed under
+references through exported fields and contains all addresses not yet allocated, if the base location
+and the overlay location lie in `P` then overlayStruct writes only into cells of `P`, never shrinks the
+heap, keeps every cell's kind, and leaves `P` closed and the heap well-formed.  (With `P` = "allocated
+by this compose" this is what the loop of compose needs; with `P` = "reachable from base or overlay, or
+new" it is `OverlayLocal`.) -/
+theorem C02_overlay_local_core (P : Nat → Prop) (z : Zeros) (bfs ofs : Fields) (h : Heap) (bl ol : Loc) (i j : Nat)
+    (I : OvInv P h) (hb : P bl.addr) (ho : P ol.addr) :
+    OvInv P (overlayStructH z bfs ofs h bl ol i j).1 ∧ OvExt P h (overlayStructH z bfs ofs h bl ol i j).1 :=
+  overlayStructH_sound P z bfs ofs h bl ol i j I hb ho
+
+/-- The laws of `OverlayLocal` hold of the real overlay (`ovReal` = overlayStruct of the struct the base
+pointer designates with the struct the copied source pointer designates), with `frame` and `reach`
+stated for well-formed heaps and values (`OverlayLocalWF`).  This weakening is what is true without
+further ado (on an ill-kinded heap reachability is not transitive) and it is still sufficient:
+`C02_fresh_and_frozen_abstract_wf`. -/
+theorem C02_overlay_local_real (z : Zeros) (bfs ofs : Fields) : OverlayLocalWF (ovReal z bfs ofs) :=
+  overlayLocalWF_ovReal z bfs ofs
+
+/-- The abstract theorem needs only the well-formed form of the laws. -/
+theorem C02_fresh_and_frozen_abstract_wf (ov : Heap → HV → HV → Heap × HV) (hov : OverlayLocalWF ov) (f : Nat)
+    (h : Heap) (d : HV) (vs : List HV) (hh : HeapOK h = true) (hd : okV h d = true)
+    (hvs : ∀ v ∈ vs, okV h v = true) (h' : Heap) (r : HV)
+    (hc : composeH ov f h d vs = some (h', r)) :
+    (∀ a, ReachV h' r a → h.length ≤ a) ∧ h.length ≤ h'.length ∧ (∀ a, a < h.length → h'[a]? = h[a]?) := by
+  have I := compose_inv_wf hov hh hd hvs hc
+  exact ⟨I.fresh, I.len, I.frozen⟩
+
+/-- `compose` with the real overlay (`composeR`: defaults copy, then per source value its own deep copy
+and overlayStruct in place onto the copy of the defaults; source values of any pointerified types
+`ofs`): whatever the outcome `st` (ok, an overlay error, a panic inside reflect), everything the
+returned pointer reaches through exported fields was allocated by this compose — the stacked config
+shares no memory with the defaults, with any source value, or with anything else that existed — and
+no cell that existed before is modified: the caller's defaults and the sources' values are untouched,
+also on the error and panic exits. -/
+theorem C02_fresh_and_frozen_real (z : Zeros) (f : Nat) (bfs : Fields) (h : Heap) (d : HV)
+    (vs : List (Fields × HV)) (hh : HeapOK h = true) (hd : okV h d = true)
+    (hvs : ∀ p ∈ vs, okV h p.2 = true) (h' : Heap) (st : St) (r : HV)
+    (hc : composeR z f bfs h d vs = some (h', st, r)) :
+    (∀ a, ReachV h' r a → h.length ≤ a) ∧ h.length ≤ h'.length ∧ (∀ a, a < h.length → h'[a]? = h[a]?) := by
+  have I := composeR_inv hh hd hvs hc
+  exact ⟨I.fresh, I.len, I.frozen⟩
+
+/-- Stacking twice with the real overlay (the same inputs again, or a re-stack later, after any amount
+of further allocation: `h2` extends `h1`; possibly other source values of other types) yields
+results that share no address. -/
+theorem C02_versions_disjoint_real (z : Zeros) (f1 f2 : Nat) (bfs : Fields) (h0 h1 h2 h3 : Heap) (d : HV)
+    (vs1 vs2 : List (Fields × HV)) (st1 st2 : St) (r1 r2 : HV)
+    (hc1 : composeR z f1 bfs h0 d vs1 = some (h1, st1, r1))
+    (hext : h1.length ≤ h2.length ∧ ∀ a, a < h1.length → h2[a]? = h1[a]?)
+    (hh2 : HeapOK h2 = true) (hd2 : okV h2 d = true) (hvs2 : ∀ p ∈ vs2, okV h2 p.2 = true)
+    (hc2 : composeR z f2 bfs h2 d vs2 = some (h3, st2, r2)) :
+    ∀ a, ReachV h3 r2 a → h2.length ≤ a ∧ (∀ b, ReachV h1 r1 b → b < h1.length → a ≠ b) := by
+  have _ := hc1  -- the first run only fixes `h1`, `r1`: `b < h1.length ≤ h2.length ≤ a`
+  intro a ha
+  have hge : h2.length ≤ a := (C02_fresh_and_frozen_real z f2 bfs h2 d vs2 hh2 hd2 hvs2 h3 st2 r2 hc2).1 a ha
+  refine ⟨hge, fun b _ hb => ?_⟩
+  have := hext.1
+  omega
+
+/-- … and re-stacking with the real overlay never writes into an existing version (nor into anything
+else that existed), whatever its outcome. -/
+theorem C02_old_version_untouched_real (z : Zeros) (f : Nat) (bfs : Fields) (h2 h3 : Heap) (d : HV)
+    (vs : List (Fields × HV)) (st : St) (r2 : HV)
+    (hh2 : HeapOK h2 = true) (hd2 : okV h2 d = true) (hvs2 : ∀ p ∈ vs, okV h2 p.2 = true)
+    (hc2 : composeR z f bfs h2 d vs = some (h3, st, r2)) :
+    ∀ a, a < h2.length → h3[a]? = h2[a]? :=
+  (C02_fresh_and_frozen_real z f bfs h2 d vs hh2 hd2 hvs2 h3 st r2 hc2).2.2
+
+/-- One source on an arbitrary base cell (what `dials.VerifOverlay` does and harness stream C compares):
+relative to any mark `m` below which nothing the base cell reaches lies, the copy-then-overlay step
+leaves every cell below `m` alone and keeps the heap fresh above `m`, whatever its outcome. -/
+theorem C02_overlay_step_real (z : Zeros) (f : Nat) (bfs ofs : Fields) (m b : Nat) (hi h' : Heap) (v : HV) (st : St)
+    (I : LInv m b hi) (hv : okV hi v = true) (hc : verifOverlayH z f bfs ofs hi b v = some (h', st)) :
+    LInv m b h' ∧ LExt m hi h' :=
+  verifOverlayH_inv I hv hc
+
+/-! ### non-vacuity: the real model merges in place, moves references, allocates -/
+
+section examples
+/-- `struct { P *int; Q *struct{ X *int } }` (already pointerified: it is its own pointerified type) -/
+def exTy : Fields :=
+  .cons .normal (.ptr (.scalar 1)) (.cons .normal (.ptr (.struct (.cons .normal (.ptr (.scalar 1)) .nil))) .nil)
+/-- cell 0: defaults `{P: nil, Q: &cell1}`, cell 1: `{X: nil}`; a source's value in cell 2: `{P: &cell3, Q: &cell4}`,
+cell 3: `7`, cell 4: `{X: &cell3}` -/
+def exHeap : Heap :=
+  [.val (.st (.cons true .nil (.cons true (.ptr 1) .nil))), .val (.st (.cons true .nil .nil)),
+   .val (.st (.cons true (.ptr 3) (.cons true (.ptr 4) .nil))), .val (.sc 7), .val (.st (.cons true (.ptr 3) .nil))]
+
+/-- compose succeeds on it, returns a pointer to a cell allocated by the run, and allocates
+2 cells for the defaults copy + 3 for the copy of the source value -/
+example : (composeR [] 20 exTy exHeap (.ptr 0) [(exTy, .ptr 2)]).map (fun x => (x.1.length, x.2.1, x.2.2))
+    = some (10, .ok, .ptr 5) := by rfl
+
+/-- the overlay step alone, on the un-copied cells: the base struct (cell 0) gets `P` by reference, the
+pointee of `Q` (cell 1) is written in place -/
+example : (overlayStructH [] exTy exTy exHeap ⟨0, []⟩ ⟨2, []⟩ 0 0)
+    = ([.val (.st (.cons true (.ptr 3) (.cons true (.ptr 1) .nil))), .val (.st (.cons true (.ptr 3) .nil)),
+        .val (.st (.cons true (.ptr 3) (.cons true (.ptr 4) .nil))), .val (.sc 7), .val (.st (.cons true (.ptr 3) .nil))], .ok) := by
+  rfl
+
+/-- a nil pointer to a struct of a different (not yet pointerified) type is given a freshly allocated pointee -/
+example : (overlayStructH [] (.cons .normal (.ptr (.struct (.cons .normal (.scalar 1) .nil))) .nil)
+      (.cons .normal (.ptr (.struct (.cons .normal (.ptr (.scalar 1)) .nil))) .nil)
+      [.val (.st (.cons true .nil .nil)), .val (.st (.cons true (.ptr 2) .nil)), .val (.st (.cons true (.ptr 3) .nil)), .val (.sc 9)]
+      ⟨0, []⟩ ⟨1, []⟩ 0 0)
+    = ([.val (.st (.cons true (.ptr 4) .nil)), .val (.st (.cons true (.ptr 2) .nil)), .val (.st (.cons true (.ptr 3) .nil)), .val (.sc 9),
+        .val (.st (.cons true (.sc 9) .nil))], .ok) := by
+  rfl
+end examples
 
 end Dials.C02
